@@ -6,7 +6,8 @@
 (*   cache[u]       what the ideal client of user u has cached as its own  *)
 (*                  locks (refreshed exactly by `locks --verify`)          *)
 (*   writable[u][p] write bit of the lockable file p in u's work tree      *)
-(*   dirty[u][p]    p has uncommitted changes in u's work tree             *)
+(*   dirty[u][p]    "no", or how p's uncommitted change sits in u's clone   *)
+(*                  (EditKinds: work tree only, staged, both)              *)
 (*   order          the locked paths in the order the server lists them    *)
 (*   page           how many locks the server puts on one page of a lock   *)
 (*                  list / verify answer (0: all of them); fixed per run   *)
@@ -40,9 +41,10 @@ Without(s, p) == SelectSeq(s, LAMBDA x : x # p)
 Init == /\ server = [p \in Paths |-> "none"] /\ order = <<>> /\ page \in PageSizes
         /\ cache = [u \in Users |-> {}]
         /\ writable = [u \in Users |-> [p \in Paths |-> FALSE]]     \* lockable files start read-only
-        /\ dirty = [u \in Users |-> [p \in Paths |-> FALSE]]
+        /\ dirty = [u \in Users |-> [p \in Paths |-> "no"]]
         /\ nops = 0 /\ done = FALSE /\ hist = <<>>
 
+Dirty(u, p) == dirty[u][p] # "no"
 Log(r) == /\ ~done /\ nops < MaxOps /\ nops' = nops + 1 /\ page' = page
           /\ hist' = Append(hist, r @@ [page |-> page])
 
@@ -59,7 +61,7 @@ Lock(u, p) ==
 
 \* unlock by path or by id; without --force it must be the user's own lock and the file must be clean
 Unlock(u, p, force, byid) ==
-  LET ok == server[p] # "none" /\ (force \/ (server[p] = u /\ ~dirty[u][p])) IN
+  LET ok == server[p] # "none" /\ (force \/ (server[p] = u /\ ~Dirty(u, p))) IN
   /\ server[p] # "none"
   /\ server' = IF ok THEN [server EXCEPT ![p] = "none"] ELSE server
   /\ order' = IF ok THEN Without(order, p) ELSE order
@@ -70,7 +72,7 @@ Unlock(u, p, force, byid) ==
   /\ UNCHANGED <<dirty, done>>
   /\ Log([a |-> "unlock", u |-> u, p |-> p, ok |-> ok, force |-> force, byid |-> byid,
           cacheHas |-> {}, cacheLacks |-> IF ok /\ server[p] = u THEN {p} ELSE {}, cacheExact |-> FALSE, cacheIs |-> {},
-          writableIs |-> {}, readonlyIs |-> IF ok /\ ~dirty[u][p] THEN {p} ELSE {}, serverAfter |-> server'])
+          writableIs |-> {}, readonlyIs |-> IF ok /\ ~Dirty(u, p) THEN {p} ELSE {}, serverAfter |-> server'])
 
 \* git lfs lock <p> <q> / git lfs unlock <p> <q>: the paths are tried one after the other in the order
 \* given, each on its own terms; what was granted (released) stays granted (released) and is recorded
@@ -89,7 +91,7 @@ LockMany(u, ord) ==
           cacheHas |-> granted, cacheLacks |-> {}, cacheExact |-> FALSE, cacheIs |-> {},
           writableIs |-> granted, readonlyIs |-> {}, serverAfter |-> server'])
 UnlockMany(u, ord, force) ==
-  LET released == {p \in Rng(ord) : server[p] # "none" /\ (force \/ (server[p] = u /\ ~dirty[u][p]))} IN
+  LET released == {p \in Rng(ord) : server[p] # "none" /\ (force \/ (server[p] = u /\ ~Dirty(u, p)))} IN
   /\ ord \in Orders /\ \E p \in Rng(ord) : server[p] # "none"
   /\ server' = [p \in Paths |-> IF p \in released THEN "none" ELSE server[p]]
   /\ order' = SelectSeq(order, LAMBDA x : x \notin released)
@@ -98,7 +100,7 @@ UnlockMany(u, ord, force) ==
   /\ UNCHANGED <<dirty, done>>
   /\ Log([a |-> "unlockmany", u |-> u, p |-> "", ps |-> ord, ok |-> (released = Rng(ord)), force |-> force, byid |-> FALSE,
           cacheHas |-> {}, cacheLacks |-> {p \in released : server[p] = u}, cacheExact |-> FALSE, cacheIs |-> {},
-          writableIs |-> {}, readonlyIs |-> {p \in released : ~dirty[u][p]}, serverAfter |-> server'])
+          writableIs |-> {}, readonlyIs |-> {p \in released : ~Dirty(u, p)}, serverAfter |-> server'])
 
 Verify(u) ==         \* git lfs locks --verify : the cache of own locks is refreshed from the server
   /\ cache' = [cache EXCEPT ![u] = Walk(u)]
@@ -113,17 +115,21 @@ Verify(u) ==         \* git lfs locks --verify : the cache of own locks is refre
 HookKinds == {"checkout", "merge"}
 Hook(u, kind) ==
   /\ kind \in HookKinds
-  /\ writable' = [writable EXCEPT ![u] = [p \in Paths |-> p \in cache[u] \/ (dirty[u][p] /\ writable[u][p])]]
+  /\ (kind = "merge" => \A p \in Paths : dirty[u][p] \in {"no", "worktree"})   \* Git refuses to merge while changes are staged
+  /\ writable' = [writable EXCEPT ![u] = [p \in Paths |-> p \in cache[u] \/ (Dirty(u, p) /\ writable[u][p])]]
   /\ UNCHANGED <<server, order, cache, dirty, done>>
   /\ Log([a |-> "hook", kind |-> kind, u |-> u, p |-> "", ok |-> TRUE, force |-> FALSE, byid |-> FALSE,
           cacheHas |-> {}, cacheLacks |-> {}, cacheExact |-> FALSE, cacheIs |-> {},
           writableIs |-> cache[u], readonlyIs |-> {p \in Paths : p \notin cache[u]}, serverAfter |-> server])
 
-Edit(u, p) ==        \* the user changes a file they may write
-  /\ writable[u][p] /\ ~dirty[u][p]
-  /\ dirty' = [dirty EXCEPT ![u][p] = TRUE]
+\* how an uncommitted change sits in the repository: in the work tree only, staged completely
+\* (work tree and index agree again), or staged and then changed once more
+EditKinds == {"worktree", "staged", "both"}
+Edit(u, p, kind) ==  \* the user changes a file they may write
+  /\ writable[u][p] /\ ~Dirty(u, p) /\ kind \in EditKinds
+  /\ dirty' = [dirty EXCEPT ![u][p] = kind]
   /\ UNCHANGED <<server, order, cache, writable, done>>
-  /\ Log([a |-> "edit", u |-> u, p |-> p, ok |-> TRUE, force |-> FALSE, byid |-> FALSE,
+  /\ Log([a |-> "edit", kind |-> kind, u |-> u, p |-> p, ok |-> TRUE, force |-> FALSE, byid |-> FALSE,
           cacheHas |-> {}, cacheLacks |-> {}, cacheExact |-> FALSE, cacheIs |-> {},
           writableIs |-> {}, readonlyIs |-> {}, serverAfter |-> server])
 
@@ -136,7 +142,7 @@ Push(u, p) ==        \* commit a change to p and push it with lock verification 
           writableIs |-> {}, readonlyIs |-> {}, serverAfter |-> server])
 
 Next == \E u \in Users :
-          \/ \E p \in Paths : Lock(u, p) \/ Edit(u, p) \/ Push(u, p)
+          \/ \E p \in Paths : Lock(u, p) \/ Push(u, p) \/ \E k \in EditKinds : Edit(u, p, k)
           \/ \E p \in Paths, f, i \in BOOLEAN : Unlock(u, p, f, i)
           \/ \E ord \in Orders : LockMany(u, ord) \/ \E f \in BOOLEAN : UnlockMany(u, ord, f)
           \/ Verify(u) \/ \E k \in HookKinds : Hook(u, k)
@@ -148,7 +154,7 @@ AtMostOneOwner == \A p \in Paths : server[p] \in Users \cup {"none"}
 \* since this user's last refresh; right after a refresh the cache is exactly the user's own locks
 FreshAfterVerify == [][\A u \in Users : (hist'[Len(hist')].a = "verify" /\ hist'[Len(hist')].u = u) => cache'[u] = {p \in Paths : server'[p] = u}]_vars
 NoUnlockDirty == [][\A u \in Users, p \in Paths :
-                     (dirty[u][p] /\ server[p] = u /\ server'[p] = "none" /\ hist'[Len(hist')].u = u) => hist'[Len(hist')].force]_vars
+                     (Dirty(u, p) /\ server[p] = u /\ server'[p] = "none" /\ hist'[Len(hist')].u = u) => hist'[Len(hist')].force]_vars
 \* a command that fails as a whole still leaves the cache agreeing with what it did on the server
 PartialRecorded == [][\A u \in Users, p \in Paths :
                      (hist'[Len(hist')].u = u /\ server[p] # u /\ server'[p] = u) => p \in cache'[u]]_vars
